@@ -1,6 +1,7 @@
 package core
 
 import (
+	"strconv"
 	"encoding/binary"
 	"encoding/json"
 	"fmt"
@@ -258,4 +259,101 @@ func TopBucketStats(path string) ([]map[string]int, error) {
 		})
 	})
 	return out, err
+}
+
+// CLIPages runs `bbolt pages` and parses its table: one record per row, items = -1 and ov = 0 where the
+// column is blank. ok is false when the command fails or a row cannot be parsed.
+func CLIPages(path string) ([]map[string]any, bool) {
+	out, code := CLI(60*time.Second, "pages", path)
+	if code != 0 {
+		return nil, false
+	}
+	rows := []map[string]any{}
+	for i, l := range strings.Split(strings.TrimRight(out, "\n"), "\n") {
+		if i < 2 {
+			continue // header
+		}
+		f := strings.Fields(l)
+		if len(f) < 2 || len(f) > 4 {
+			return nil, false
+		}
+		id, err := strconv.Atoi(f[0])
+		if err != nil {
+			return nil, false
+		}
+		t := f[1]
+		if strings.HasPrefix(t, "unknown") {
+			t = "unknown"
+		}
+		r := map[string]any{"id": id, "type": t, "items": -1, "ov": 0}
+		if len(f) >= 3 {
+			n, err := strconv.Atoi(f[2])
+			if err != nil {
+				return nil, false
+			}
+			r["items"] = n
+		}
+		if len(f) == 4 {
+			n, err := strconv.Atoi(f[3])
+			if err != nil {
+				return nil, false
+			}
+			r["ov"] = n
+		}
+		rows = append(rows, r)
+	}
+	return rows, true
+}
+
+// CLIInfo runs `bbolt info` and returns the page size it prints (-1 on failure).
+func CLIInfo(path string) int {
+	out, code := CLI(60*time.Second, "info", path)
+	if code != 0 {
+		return -1
+	}
+	n := -1
+	fmt.Sscanf(strings.TrimSpace(out), "Page Size: %d", &n)
+	return n
+}
+
+// CLIStats runs `bbolt stats` and returns the aggregated bucket statistics it prints.
+func CLIStats(path string) (map[string]int, bool) {
+	out, code := CLI(60*time.Second, "stats", path)
+	if code != 0 {
+		return nil, false
+	}
+	labels := map[string]string{
+		"Number of logical branch pages": "branchPageN", "Number of physical branch overflow pages": "branchOverflowN",
+		"Number of logical leaf pages": "leafPageN", "Number of physical leaf overflow pages": "leafOverflowN",
+		"Number of keys/value pairs": "keyN", "Number of levels in B+tree": "depth",
+		"Bytes allocated for physical branch pages": "branchAlloc", "Bytes actually used for branch data": "branchInuse",
+		"Bytes allocated for physical leaf pages": "leafAlloc", "Bytes actually used for leaf data": "leafInuse",
+		"Total number of buckets": "bucketN", "Total number on inlined buckets": "inlineBucketN", "Bytes used for inlined buckets": "inlineBucketInuse",
+	}
+	res := map[string]int{"buckets": -1}
+	for _, l := range strings.Split(out, "\n") {
+		l = strings.TrimSpace(l)
+		if strings.HasPrefix(l, "Aggregate statistics for ") {
+			n := -1
+			fmt.Sscanf(l, "Aggregate statistics for %d buckets", &n)
+			res["buckets"] = n
+			continue
+		}
+		i := strings.Index(l, ": ")
+		if i < 0 {
+			continue
+		}
+		if k, ok := labels[l[:i]]; ok {
+			v := strings.Fields(l[i+2:])
+			n, err := strconv.Atoi(v[0])
+			if err != nil {
+				return nil, false
+			}
+			res[k] = n
+		}
+	}
+	if len(res) != len(labels)+1 {
+		return nil, false
+	}
+	return res, true
 }
